@@ -4,6 +4,7 @@ C15 — pull-off: 3 s after Look To, or whenever the human treble actually goes.
 import Wheatley.Props.C11
 import Wheatley.Model.World
 import Wheatley.Lemmas.Outs
+import Wheatley.Lemmas.Handlers
 namespace Wheatley.C15
 open Generated
 
@@ -262,5 +263,20 @@ theorem speed_change_keeps_waiting (r : Reg K) (newSpeed realTime : K) (h : r.st
   unfold Reg.changePealSpeed
   simp only [h]
   split <;> rfl
+
+/-! ### Messages during the wait for the pull-off -/
+
+/-- **Whatever arrives meanwhile**: while the main thread waits for the human leader to pull off, the delivery of
+any event leaves it in that loop and strikes nothing (`only_the_main_thread_strikes`); and as long as the line is
+still unanchored afterwards - only the leader's own strike anchors it (`only_leader_anchors`), or a new Look To -
+the next wake-up only sleeps again. -/
+theorem pull_off_survives_delivery (wt : K → K) (w : World K) (e : Ev) (bell : Nat) (uc hand : Bool)
+    (hpc : w.pc = .pullOff bell uc hand) :
+    (World.deliver wt w e).pc = .pullOff bell uc hand ∧
+    ringsOf (World.deliver wt w e).obs = ringsOf w.obs ∧
+    ((World.deliver wt w e).rh.reg.start = .inf →
+      (World.deliver wt w e).mainStep wt = (World.deliver wt w e, .sleep (Num.ofQ waitSleepTime))) := by
+  obtain ⟨h1, h2⟩ := deliver_never_rings wt w e
+  exact ⟨h1.trans hpc, h2, fun hs => pull_off_only_polls _ wt bell uc hand (h1.trans hpc) hs⟩
 
 end Wheatley.C15
